@@ -51,7 +51,15 @@ impl Parser {
                             .to_owned(),
                     )]);
                 }
-                break;
+                // an argument beyond the last parameter: count it, so that the arity
+                // check below reports the call
+                result_len += 1;
+                continue;
+            }
+
+            if idx > expected_types.len() {
+                result_len += 1;
+                continue;
             }
 
             child_span = child.as_span();
